@@ -54,6 +54,7 @@ static int cmdRun(int argc, char **argv) {
     for (int64_t i = first + worker; i < first + runs; i += workers) {
         if (i <= after) continue;
         staticsRestore();  // every run starts from the pristine image of library statics
+        ambientResetPerRun();  // ... and from simulated time 0 / the same random stream
         uint64_t rs = runSeedOf(seed, propCode(prop), (uint64_t)i);
         cfg.wantSample = sampleEvery > 0 && (i % sampleEvery) == 0;
         JP line;
@@ -70,6 +71,15 @@ static int cmdRun(int argc, char **argv) {
         else {
             fprintf(stderr, "unknown property %s in this build\n", prop.c_str());
             return 2;
+        }
+        {
+            AmbientReads ar = ambientReads();
+            if (ar.total()) {
+                JP a = JVal::obj();
+                a->set("clock", (int64_t)ar.clock).set("random", (int64_t)ar.random).set("env", (int64_t)ar.env);
+                a->set("sleep", (int64_t)ar.sleep).set("lock", (int64_t)ar.lock).set("lock_contended", (int64_t)ar.lockContended);
+                line->set("ambient_source_calls", a);
+            }
         }
         // diagnostics only: never part of the event-log hash or of any verdict
         clock_gettime(CLOCK_MONOTONIC, &t1);
